@@ -482,6 +482,84 @@ func main() {
 					})
 				}
 			})
+			// A caller that does not stop at an error (a callback that declines the offer in error and
+			// goes on to the next, as RFC 7692 lets it): every list of up to 4 offers over {acceptable,
+			// declined, malformed, foreign} on one negotiator. Still at most one answer, and it goes to
+			// the first acceptable offer.
+			t.Par(len(cfgs), func(ci int) {
+				cfg := cfgs[ci]
+				var declined, accepted *P
+				for i := range rep {
+					if alone(cfg, offerOption(rep[i])) {
+						if accepted == nil {
+							accepted = &rep[i]
+						}
+					} else if declined == nil {
+						declined = &rep[i]
+					}
+				}
+				if accepted == nil {
+					return
+				}
+				kinds := []byte("AMF")
+				if declined != nil {
+					kinds = []byte("AMFD")
+				}
+				var lists []string
+				var gen func(cur string)
+				gen = func(cur string) {
+					if len(cur) >= 2 {
+						lists = append(lists, cur)
+					}
+					if len(cur) == 4 {
+						return
+					}
+					for _, k := range kinds {
+						gen(cur + string(k))
+					}
+				}
+				gen("")
+				for _, l := range lists {
+					if !strings.Contains(l, "M") || strings.Count(l, "A") == 0 {
+						continue // lists without an error are judged above
+					}
+					l := l
+					t.Do(func() string {
+						return fmt.Sprintf("config%s offers %s (A=offer%s, M=malformed, F=foreign, D=declined), the caller carries on after an error", ps(cfg), l, ps(*accepted))
+					}, func() *explore.Fail {
+						e := &wsflate.Extension{Parameters: cfg}
+						var answered []int
+						for i, k := range []byte(l) {
+							var o httphead.Option
+							switch k {
+							case 'A':
+								o = offerOption(*accepted)
+							case 'D':
+								o = offerOption(*declined)
+							case 'F':
+								o = httphead.NewOption("x-foreign", map[string]string{"a": "1"})
+							default:
+								o = httphead.Option{Name: []byte("permessage-deflate")}
+								o.Parameters.Set([]byte("server_max_window_bits"), []byte("99"))
+							}
+							a, _ := e.Negotiate(o)
+							if a.Size() > 0 {
+								answered = append(answered, i)
+							}
+						}
+						if len(answered) > 1 {
+							return explore.Failf("more-than-one-offer-accepted:after-an-error", "offers #%v were all answered", answered)
+						}
+						if first := strings.Index(l, "A"); len(answered) != 1 || answered[0] != first {
+							return explore.Failf("not-first-acceptable-offer:after-an-error", "first acceptable is #%d, answered %v", first, answered)
+						}
+						if _, ok := e.Accepted(); !ok {
+							return explore.Failf("Accepted-flag:after-an-error", "an offer was answered but Accepted() says no")
+						}
+						return nil
+					})
+				}
+			})
 			t.Outcome("ok")
 		})
 
